@@ -828,6 +828,120 @@ theorem wrap_flags_unique (fl : K → Int) (hfl : IsFloor fl) (b : Box K) (hdet 
   · exact add_right_cancel e2
   · exact add_right_cancel e3
 
+/-! ## uniqueness of the normalised cell -/
+
+theorem sq_inj_pos {a b : K} (ha : 0 < a) (hb : 0 < b) (h : a * a = b * b) : a = b := by
+  have h0 : (a - b) * (a + b) = 0 := by linear_combination h
+  rcases mul_eq_zero.mp h0 with h1 | h1 <;> linarith
+
+/-- **lammps_normal_unique** (uniqueness of the Cholesky factor): two LAMMPS-compatible cells (`a` along +x, `b` in the xy
+    plane with positive y, `c` with positive z) with the same lengths and angles (Gram matrix) are the same cell. -/
+theorem lammps_normal_unique (L M : Box K) (hL : Box.isLammpsNorm L = true) (hM : Box.isLammpsNorm M = true)
+    (hg : gram L.vects = gram M.vects) : L.vects = M.vects := by
+  obtain ⟨⟨⟨l00, l01, l02⟩, ⟨l10, l11, l12⟩, ⟨l20, l21, l22⟩⟩, lo⟩ := L
+  obtain ⟨⟨⟨m00, m01, m02⟩, ⟨m10, m11, m12⟩, ⟨m20, m21, m22⟩⟩, mo⟩ := M
+  simp only [Box.isLammpsNorm, Bool.and_eq_true, decide_eq_true_eq] at hL hM
+  obtain ⟨⟨⟨⟨⟨rfl, rfl⟩, rfl⟩, hl0⟩, hl1⟩, hl2⟩ := hL
+  obtain ⟨⟨⟨⟨⟨rfl, rfl⟩, rfl⟩, hm0⟩, hm1⟩, hm2⟩ := hM
+  rw [gram_entries, gram_entries] at hg
+  simp only [M3.mk.injEq, V3.mk.injEq, V3.normSq, V3.dot, mul_zero, add_zero, zero_mul] at hg
+  obtain ⟨⟨g00, g01, g02⟩, ⟨_, g11, g12⟩, ⟨_, _, g22⟩⟩ := hg
+  have e00 : l00 = m00 := sq_inj_pos hl0 hm0 g00
+  subst e00
+  have e10 : l10 = m10 := by
+    have : l00 * (l10 - m10) = 0 := by linear_combination g01
+    rcases mul_eq_zero.mp this with h | h
+    · exact absurd h (ne_of_gt hl0)
+    · linarith
+  subst e10
+  have e20 : l20 = m20 := by
+    have : l00 * (l20 - m20) = 0 := by linear_combination g02
+    rcases mul_eq_zero.mp this with h | h
+    · exact absurd h (ne_of_gt hl0)
+    · linarith
+  subst e20
+  have e11 : l11 = m11 := sq_inj_pos hl1 hm1 (by linear_combination g11)
+  subst e11
+  have e21 : l21 = m21 := by
+    have : l11 * (l21 - m21) = 0 := by linear_combination g12
+    rcases mul_eq_zero.mp this with h | h
+    · exact absurd h (ne_of_gt hl1)
+    · linarith
+  subst e21
+  have e22 : l22 = m22 := sq_inj_pos hl2 hm2 (by linear_combination g22)
+  subst e22
+  rfl
+
+/-- **normalize_cell_unique** ("a new right-handed LAMMPS-compatible cell with the same lengths, angles", read as *the*):
+    the cell `normalize` returns for a fully periodic system is the ONLY LAMMPS-compatible cell with the lengths and angles
+    of the (reversed, if left-handed) input cell. -/
+theorem normalize_cell_unique (fl : K → Int) (pad : K) (sqrt : K → K) (b : Box K) (hdet : M3.det b.vects ≠ 0)
+    (hs : SqrtOK sqrt (flip b).vects) (pos : List (V3 K)) (r : Normalized K)
+    (hr : normalize? fl pad sqrt b ⟨true, true, true⟩ pos = some r)
+    (N : Box K) (hN : Box.isLammpsNorm N = true) (hg : gram N.vects = gram (flip b).vects) :
+    r.box.vects = N.vects := by
+  obtain ⟨r', hr', hn, _, _, _⟩ := normalize_lammps_normal fl pad sqrt b hs pos
+  rw [hr] at hr'
+  obtain rfl := Option.some.inj hr'
+  have hg' := (normalize_gram fl pad sqrt b hdet hs pos r hr).1
+  exact lammps_normal_unique r.box N hn hN (by rw [hg', hg])
+
+/-- **normalize_of_lammps_normal** (idempotence on the cell): a fully periodic system whose cell is already
+    LAMMPS-compatible keeps its cell vectors, gets origin 0, and the returned transformation is the identity. -/
+theorem normalize_of_lammps_normal (fl : K → Int) (pad : K) (sqrt : K → K) (b : Box K)
+    (hn : Box.isLammpsNorm b = true) (hs : SqrtOK sqrt b.vects) (pos : List (V3 K)) :
+    ∃ r, normalize? fl pad sqrt b ⟨true, true, true⟩ pos = some r ∧ r.box.vects = b.vects ∧
+      r.box.origin = ⟨0, 0, 0⟩ ∧ r.transform = M3.one := by
+  have hdpos : 0 < M3.det b.vects := by
+    obtain ⟨⟨⟨l00, l01, l02⟩, ⟨l10, l11, l12⟩, ⟨l20, l21, l22⟩⟩, lo⟩ := b
+    simp only [Box.isLammpsNorm, Bool.and_eq_true, decide_eq_true_eq] at hn
+    obtain ⟨⟨⟨⟨⟨rfl, rfl⟩, rfl⟩, h0⟩, h1⟩, h2⟩ := hn
+    simp only [M3.det, V3.dot, V3.cross]
+    have := mul_pos (mul_pos h0 h1) h2
+    linarith
+  have hdet : M3.det b.vects ≠ 0 := ne_of_gt hdpos
+  have hf : flip b = b := by
+    have : ¬ triple b.vects < 0 := by rw [triple_eq_det]; exact not_lt.mpr hdpos.le
+    simp only [flip, this, if_false]
+  have hs' : SqrtOK sqrt (flip b).vects := by rw [hf]; exact hs
+  obtain ⟨b2, _, ho, _, _, _, hr⟩ := normalize_full_form fl pad sqrt b hs' pos
+  have e : b2.vects = b.vects := normalize_cell_unique fl pad sqrt b hdet hs' pos _ hr b hn (by rw [hf])
+  refine ⟨_, hr, e, ho, ?_⟩
+  show (M3.mul (M3.inv (flip b).vects) b2.vects).transpose = M3.one
+  rw [hf, e, M3.inv_mul_cancel _ hdet, M3.transpose_one]
+
+/-! ## carried per-atom properties: which keys the copy made by `normalize` has (`Atoms.__deepcopy__`) -/
+
+/-- **copyKeys_complete**: the copy of the atoms that `normalize` works on has exactly the keys of the original — `atype`
+    and `pos` copied explicitly, every other key (whatever its name: a substring or superstring of a reserved one, not an
+    identifier, empty) through the loop with its EXACT-match filter. -/
+theorem copyKeys_complete (keys : List String) (h1 : "atype" ∈ keys) (h2 : "pos" ∈ keys) (k : String) :
+    k ∈ copyKeys atomsCopyExplicit atomsCopyReserved keys ↔ k ∈ keys := by
+  simp only [copyKeys, atomsCopyExplicit, atomsCopyReserved, List.mem_append, List.mem_filter, List.mem_cons,
+    List.not_mem_nil, or_false, Bool.not_eq_true', List.contains_eq_mem, decide_eq_false_iff_not, not_or]
+  constructor
+  · rintro ((rfl | rfl) | ⟨h, _⟩)
+    · exact h1
+    · exact h2
+    · exact h
+  · intro h
+    by_cases ha : k = "atype"
+    · exact Or.inl (Or.inl ha)
+    · by_cases hp : k = "pos"
+      · exact Or.inl (Or.inr hp)
+      · exact Or.inr ⟨h, ha, hp⟩
+
+/-- no key is carried twice (for a key list without duplicates). -/
+theorem copyKeys_nodup (keys : List String) (hk : keys.Nodup) : (copyKeys atomsCopyExplicit atomsCopyReserved keys).Nodup := by
+  simp only [copyKeys, atomsCopyExplicit, atomsCopyReserved]
+  rw [List.nodup_append]
+  refine ⟨by decide, hk.filter _, ?_⟩
+  intro a ha b hb
+  simp only [List.mem_filter, Bool.not_eq_true', List.contains_eq_mem, decide_eq_false_iff_not] at hb
+  intro hab
+  subst hab
+  exact hb.2 ha
+
 /-! ## the public entry points with their option handling (model of lean/Atomman/C05_Src.lean; the defaults, tests and
     refusals are tied to the source by `gen_defaults_eq_model` / `gen_flagTests_eq_model` / `gen_*Body_eq_model`) -/
 
@@ -1003,6 +1117,12 @@ example : M3.det (zeroSmall exPar.tiny (⟨⟨0, 3, 0⟩, ⟨4, 0, 0⟩, ⟨0, 0
 
 /-- at ℝ (real floor, real square root) every non-singular cell meets all hypotheses: normalize is
     defined and yields a right-handed LAMMPS cell. -/
+-- normalize_of_lammps_normal: a LAMMPS-compatible cell with every hypothesis true; copyKeys on awkward names
+example : Box.isLammpsNorm (⟨⟨⟨3, 0, 0⟩, ⟨0, 4, 0⟩, ⟨0, 0, 5⟩⟩, ⟨1, 2, 3⟩⟩ : Box ℚ) = true := by decide +kernel
+example : SqrtOK sqrtQ (⟨⟨3, 0, 0⟩, ⟨0, 4, 0⟩, ⟨0, 0, 5⟩⟩ : M3 ℚ) := by
+  refine ⟨⟨?_, ?_⟩, ⟨?_, ?_⟩, ⟨?_, ?_⟩, ⟨?_, ?_⟩, ⟨?_, ?_⟩⟩ <;> decide +kernel
+example : copyKeys atomsCopyExplicit atomsCopyReserved ["atype", "pos", "type", "p", "", "atype pos", "position"]
+    = ["atype", "pos", "type", "p", "", "atype pos", "position"] := by decide
 -- wrap_flags_unique: the second atom of `exPos`, pbc (T, F, T): q = p - (1 a + 2 c) meets every hypothesis
 example : (⟨-7, 3/2, 3/2⟩ : V3 ℚ) + latticeVec exBox.vects ⟨1, 0, 2⟩ = ⟨-7, 9/2, 23/2⟩ := by decide +kernel
 example : let s := exBox.cartToRel (⟨-7, 3/2, 3/2⟩ : V3 ℚ); 0 ≤ s.x ∧ s.x < 1 ∧ 0 ≤ s.z ∧ s.z < 1 := by decide +kernel
